@@ -56,6 +56,28 @@ Qed.
 Example C26_no_deadlock_hyp : 1 <= cap (w_cfg Block) /\ ranked (w_cfg Block).
 Proof. split; [cbn; lia | apply rankedb_sound; reflexivity]. Qed.
 
+(* Known finding "type-consumed-in-two-contexts": some event type is the source of streams of two different contexts.
+   The routing table sends a type to ONE context, so the streams of the other context never see it: on such a
+   program the run with contexts ends (nothing left to do anywhere) without an output the context-free engine
+   produces.  (Outside the class the equality of the outputs with the context-free engine is tested, not proved.) *)
+Definition Known_C26_two_consumers (p : list stream) : bool :=
+  existsb (fun s1 => existsb (fun s2 => N.eqb (s_src s1) (s_src s2) && negb (Nat.eqb (s_ctx s1) (s_ctx s2))) p) p.
+
+Theorem C26_two_consumers_refuted : exists cfg sched s e x,
+  mode cfg = Block /\ Known_C26_two_consumers (prog cfg) = true /\
+  run cfg init (Ingress e :: sched) = Some s /\ quiescent (n_ctx cfg) s /\
+  In x (engine (prog cfg) e) /\ ~ In x (output s).
+Proof.
+  exists {| n_ctx := 3; cap := 4; mode := Block;
+            prog := [ {| s_name := 100; s_src := 0; s_ctx := 0; s_thr := 0 |};
+                      {| s_name := 101; s_src := 100; s_ctx := 1; s_thr := 0 |};
+                      {| s_name := 102; s_src := 100; s_ctx := 2; s_thr := 0 |} ] |}.
+  exists [Recv 0; Route 0; Recv 2; Route 2]. eexists. exists w_e1, {| e_ty := 101; e_id := 1; e_v := 5 |}.
+  split; [reflexivity|]. split; [vm_compute; reflexivity|]. split; [vm_compute; reflexivity|].
+  split; [apply quiescentb_sound; vm_compute; reflexivity|].
+  split; [vm_compute; auto|]. vm_compute. intros [H|[H|[]]]; discriminate.
+Qed.
+
 (* What the correspondence check replays on the implementation (polls, initiate, try_complete) is a schedule of this
    transition system. *)
 Theorem C26_macro_steps_are_schedules : forall cfg fuel ms s store os ls s' store',
